@@ -10,6 +10,8 @@ cancel / timer expiry).  The correspondence suites `C17q` (exact, sequential) an
 import HopModel.Proofs.Queue
 import HopModel.Proofs.DeadlineSteps
 import HopModel.Proofs.Lifecycle
+import HopModel.Model.DeadlineGen
+import HopModel.Generated.Shapes
 namespace Queue
 
 /-! ### FIFO, at most once -/
@@ -413,3 +415,152 @@ example : ∃ s, Reach s ∧ s.pc 1 = .closeRet 7 ∧ s.pc 2 = .closeRet 7 ∧ s
   exact ⟨s7, r7, rfl, rfl, rfl, rfl⟩
 
 end Lifecycle
+
+/-! ### timer generations: a stale timer callback never expires a later deadline -/
+
+namespace DeadlineGen
+
+def Inv (s : S) : Prop :=
+  (∀ g ∈ s.inflight, g ≤ s.gen) ∧ (s.gen ∈ s.inflight → s.dl = .future) ∧
+  (s.expired = true → s.dl = .past ∨ (s.dl = .future ∧ s.firedCur = true)) ∧
+  (s.firedCur = true → s.dl = .future)
+
+theorem inv_init : Inv {} := by
+  refine ⟨?_, ?_, ?_, ?_⟩ <;> simp
+
+theorem inv_step (s : S) (e : Ev) (h : Inv s) : Inv (step s e) := by
+  obtain ⟨h1, h2, h3, h4⟩ := h
+  cases e with
+  | set d =>
+    cases d with
+    | past =>
+      refine ⟨?_, ?_, ?_, ?_⟩
+      · intro g hg
+        have := h1 g (by simpa [step] using hg)
+        simp [step]; omega
+      · intro hg
+        have := h1 (s.gen + 1) (by simpa [step] using hg)
+        omega
+      · intro _; simp [step]
+      · intro hf; simp [step] at hf
+    | zero =>
+      refine ⟨?_, ?_, ?_, ?_⟩
+      · intro g hg
+        have := h1 g (by simpa [step] using hg)
+        simp [step]; omega
+      · intro hg
+        have := h1 (s.gen + 1) (by simpa [step] using hg)
+        omega
+      · intro he; simp [step] at he
+      · intro hf; simp [step] at hf
+    | future =>
+      refine ⟨?_, ?_, ?_, ?_⟩
+      · intro g hg
+        simp only [step, if_true, List.mem_cons] at hg
+        rcases hg with rfl | hg
+        · simp [step]
+        · have := h1 g hg
+          simp [step]; omega
+      · intro _; simp [step]
+      · intro he; simp [step] at he
+      · intro hf; simp [step] at hf
+  | callback g =>
+    simp only [step]
+    split
+    · rename_i hg
+      split
+      · rename_i hgen
+        subst hgen
+        have hfut := h2 hg
+        refine ⟨?_, ?_, ?_, ?_⟩
+        · intro g' hg'
+          exact h1 g' (List.mem_of_mem_erase hg')
+        · intro _; exact hfut
+        · intro _; exact Or.inr ⟨hfut, rfl⟩
+        · intro _; exact hfut
+      · refine ⟨?_, ?_, h3, h4⟩
+        · intro g' hg'
+          exact h1 g' (List.mem_of_mem_erase hg')
+        · intro hm
+          exact h2 (List.mem_of_mem_erase hm)
+    · exact ⟨h1, h2, h3, h4⟩
+
+theorem inv_run (evs : List Ev) : Inv (run evs) := by
+  unfold run
+  suffices ∀ s, Inv s → Inv (evs.foldl step s) from this _ inv_init
+  induction evs with
+  | nil => intro s h; exact h
+  | cons e rest ih => intro s h; exact ih _ (inv_step s e h)
+
+/-- After every history of `SetDeadline` calls and timer callbacks - callbacks of stopped timers
+arriving late, in any order, any number of them - the deadline is expired by time only if the last
+call asked for a time in the past, or asked for a future time and *its own* timer has fired. -/
+theorem C17_deadline_expiry_is_current (evs : List Ev) :
+    (run evs).expired = true →
+      (run evs).dl = .past ∨ ((run evs).dl = .future ∧ (run evs).firedCur = true) :=
+  (inv_run evs).2.2.1
+
+/-- in particular a deadline that was cleared stays unexpired whatever callbacks still arrive -/
+theorem C17_cleared_deadline_never_expires (evs : List Ev) (h : (run evs).dl = .zero) :
+    (run evs).expired = false := by
+  cases he : (run evs).expired with
+  | false => rfl
+  | true =>
+    rcases C17_deadline_expiry_is_current evs he with h1 | ⟨h1, _⟩ <;> rw [h] at h1 <;> cases h1
+
+/-- non-vacuity: a timer that does fire in time expires its deadline … -/
+example : (run [.set .future, .callback 1]).expired = true := by decide
+/-- … a stale one does not (the callback of call 1 runs after call 2 cleared the deadline) … -/
+example : (run [.set .future, .set .zero, .callback 1]).expired = false := by decide
+/-- … and counting only the arming calls loses exactly this (the seeded change C17-r2-1) -/
+example : ([Ev.set .future, .set .zero, .callback 1].foldl stepLazy {}).expired = true ∧
+    ([Ev.set .future, .set .zero, .callback 1].foldl stepLazy {}).dl = .zero := by decide
+
+/-! #### the tie to common/sync.go: what the model assumes about the order of statements,
+checked on the statement shapes the translator regenerates from the source on every run -/
+
+open Shape in
+/-- `SetDeadline` counts *every* call that gets past the `final` check: `d.gen++` stands at the top
+level of the function, the only conditional before it is `if d.final` (whose body returns), and it
+comes before the old timer is stopped, before the channel is replaced and before the `t.IsZero()`
+return. -/
+def genCountedOnEveryCall (sh : List Item) : Bool :=
+  match find sh (· == ⟨0, "incdec", "d.gen", "d.gen++"⟩) with
+  | none => false
+  | some i =>
+    ((sh.take i).filter (fun it => it.kind == "if" || it.kind == "for" || it.kind == "switch" || it.kind == "select"))
+        == [⟨0, "if", "", "d.final"⟩] &&
+    ((sh.take i).filter (fun it => it.kind == "return")) == [⟨1, "return", "", "io.EOF"⟩] &&
+    (match find sh (· == ⟨0, "if", "", "t.IsZero()"⟩) with | some j => decide (i < j) | none => false) &&
+    (match find sh (· == ⟨0, "if", "", "!d.timer.Stop()"⟩) with | some j => decide (i < j) | none => false) &&
+    -- the counter is written exactly once
+    (sh.filter (fun it => (it.kind == "incdec" || it.kind == "assign") && it.head == "d.gen")).length == 1
+
+open Shape in
+/-- the timer armed by a call carries that call's number: `gen := d.gen` and then
+`d.timer = time.AfterFunc(…, func() { d.timeoutFor(gen) })`, both after the count -/
+def timerCarriesGeneration (sh : List Item) : Bool :=
+  match find sh (· == ⟨0, "incdec", "d.gen", "d.gen++"⟩), find sh (fun it => it.kind == "assign" && it.text == "gen := d.gen") with
+  | some i, some j =>
+    let d := (sh[j]?.map (·.depth)).getD 0
+    decide (i < j) &&
+    (match sh[j + 1]? with
+     | some a => a.kind == "assign" && a.depth == d && a.head == "d.timer <- time.AfterFunc"
+     | none => false) &&
+    sh[j + 2]? == some ⟨d + 1, "call", "d.timeoutFor", "d.timeoutFor(gen)"⟩ &&
+    (sh.filter (fun it => it.head == "d.timeoutFor")).length == 1 &&
+    (sh.filter (fun it => it.head == "d.timer <- time.AfterFunc")).length == 1
+  | _, _ => false
+
+open Shape in
+/-- `timeoutFor` does nothing unless its number is the current one: the first thing after taking the
+lock is `if d.gen != gen { return }` -/
+def callbackChecksGeneration (sh : List Item) : Bool :=
+  sh.take 4 == [⟨0, "call", "d.m.Lock", "d.m.Lock()"⟩, ⟨0, "defer", "", "d.m.Unlock"⟩, ⟨0, "if", "", "d.gen != gen"⟩,
+    ⟨1, "return", "", ""⟩]
+
+example : genCountedOnEveryCall Generated.shape_common_Deadline_SetDeadline = true := by decide
+example : timerCarriesGeneration Generated.shape_common_Deadline_SetDeadline = true := by decide
+example : callbackChecksGeneration Generated.shape_common_Deadline_timeoutFor = true := by decide
+
+end DeadlineGen
